@@ -33,7 +33,7 @@ ASSUMPTIONS = ["differential oracle: the baseline configuration itself is judged
 FLOORS = {'quick': {'span-func': 1500, 'evaluator2': 400, 'unnormalized': 1500, 'num_procs': 40, 'cache-size': 12, 'ops-kwargs': 100},
           'thorough': {'span-func': 15000, 'unnormalized': 15000, 'num_procs': 300, 'cache-size': 60}}
 MANDATORY_TAGS = ['span:binary', 'evaluator2', 'range:per-direction', 'range:[2.0, 5.0]', 'range:[-3.0, 7.5]', 'procs:2', 'procs:4', 'procs:8', 'voxelize-mp',
-                  'tessellate-mp', 'tessellate-mp:edit-and-retessellate', 'range-scale:short', 'range-scale:long', 'cache:1', 'cache:16', 'cache:1024', 'curve', 'surface', 'volume']
+                  'tessellate-mp', 'tessellate-mp:edit-and-retessellate', 'range-scale:short', 'range-scale:long', 'normalised-from-raw', 'raw:small-domain-start', 'cache:1', 'cache:16', 'cache:1024', 'curve', 'surface', 'volume']
 TECHNIQUE = ("runtime monitoring: cross-configuration differential oracle (same seeded query under each configuration, digests "
              "compared), event-log schedule checker for the multiprocessing pools, separate-interpreter runs for the environment-"
              "configured cache size")
@@ -54,6 +54,8 @@ def gen(rng, tier, shard, nshards):
     for i in range(n):
         pdim = rng.choice([1, 1, 2, 2, 3])
         yield {'kind': 'config', 'pdim': pdim, 'rational': rng.random() < 0.5, 'seed': rng.randrange(1 << 30)}
+        if i % 2 == 0:
+            yield {'kind': 'raw', 'pdim': rng.choice([1, 1, 2]), 'rational': rng.random() < 0.4, 'seed': rng.randrange(1 << 30)}
         if i % 5 == 0:
             yield {'kind': 'procs', 'seed': rng.randrange(1 << 30), 'what': 'tessellate' if (i // 5) % 2 == 0 else 'voxelize'}
         if i % 15 == 1:
@@ -61,7 +63,7 @@ def gen(rng, tier, shard, nshards):
 
 
 def check(case, ctx):
-    return {'config': check_config, 'procs': check_procs, 'cache': check_cache}[case['kind']](case, ctx)
+    return {'config': check_config, 'procs': check_procs, 'cache': check_cache, 'raw': check_normalised_from_raw}[case['kind']](case, ctx)
 
 
 # -- (a) span function / evaluator / knot range ------------------------------------------------------------------------------------
@@ -227,6 +229,59 @@ def check_config(case, ctx):
     v4 = G.build(sd4)
     V = queries(v4, sd, prms, lohis, {'find_span_func': helpers.find_span_binsearch}, qseed)
     compare(V, 'normalize_kv-off+span-binary', 'unnormalized', tol=1e-8)
+
+
+def check_normalised_from_raw(case, ctx):
+    """a shape is given a raw (possibly unclamped) knot vector; one twin keeps it, the other lets the library normalise it. The caller maps
+    its parameters with the same affine map (u - U[0]) / (U[-1] - U[0]) - the stored knots went through an 18-decimal round trip, so the
+    mapped domain ends may differ from them in the last bit. Queries at the raw domain ends / knots / interior, either span search."""
+    import signal
+    from ..core import CaseTimeout, CASE_TIMEOUT_S
+    rng = random.Random(case['seed'])
+    pdim = case['pdim']
+    sd = G.rand_shape(rng, pdim, rational=case['rational'], kvcls=rng.choice(['unclamped', 'unclamped_rep', 'unclamped_endrep', 'random']),
+                      maxextra=4, maxdeg=3, mindeg=1, dim=3, pcls='uniform')
+    lohi = rng.choice([(0.0, 141.0), (2.0, 5.0), (-3.0, 7.5), (0.0, 7.0), (1.0, 100.0)])
+    raw = [[amap(k, lohi) for k in kv] for kv in sd['kvs']]
+    if rng.random() < 0.5:
+        # unclamped vectors whose domain starts at less than 1 % of the knot range: U = [0 .. | a, interior, 100 | .. 141]
+        raw = []
+        for p_, n_ in zip(sd['degrees'], sd['sizes']):
+            a_ = rng.uniform(0.3, 1.3)
+            head = sorted(rng.uniform(0.0, 0.25) for _ in range(p_ - 1))
+            inner = sorted(rng.uniform(a_ + 1, 99.0) for _ in range(n_ - p_ - 1))
+            tail = sorted(rng.uniform(101.0, 140.0) for _ in range(p_ - 1))
+            U_ = [0.0] + head + [a_] + inner + [100.0] + tail + [141.0]
+            if rng.random() < 0.3 and p_ >= 1 and n_ - p_ - 1 >= 1:
+                U_[p_ - 1] = a_ if p_ - 1 >= 1 else U_[p_ - 1]          # repeated first domain knot
+            raw.append(sorted(U_))
+        ctx.tag('raw:small-domain-start')
+    ctx.tag('normalised-from-raw', {1: 'curve', 2: 'surface', 3: 'volume'}[pdim])
+    ctx.nontriv(True)
+    vR = G.build(dict(sd, kvs=raw, normalize_kv=False, span='linear'))
+    S = G.defn_of(vR)
+    sc = so.scale_of_defn(S)
+    for span in ('linear', 'binary'):
+        vN = G.build(dict(sd, kvs=raw, normalize_kv=True, span=span))
+        for tags, prm in G.param_tuples(rng, vR, 5):
+            mapped = [(u - U[0]) / (U[-1] - U[0]) for u, U in zip(prm, raw)]
+            base = G.evaluate_single(vR, prm)
+            signal.alarm(20)
+            try:
+                got = G.evaluate_single(vN, mapped)
+            except CaseTimeout:
+                ctx.fail('config/normalised-from-raw/no-termination/%s' % span, 'evaluate_single%r (the caller\'s affine image of %r) did not return within '
+                         '20 s with span search %s on the normalised twin; the un-normalised twin answers' % (tuple(mapped), tuple(prm), span))
+                return
+            except Exception as e:
+                ctx.fail('config/normalised-from-raw/fails/%s/%s' % (span, type(e).__name__), 'evaluate_single%r raised %s: %s on the normalised twin '
+                         '(span search %s); the un-normalised twin evaluates %r' % (tuple(mapped), type(e).__name__, e, span, tuple(prm)))
+                return
+            finally:
+                signal.alarm(CASE_TIMEOUT_S)
+            # (the 1-ulp difference of the parameters moves the point by ~1e-16 * |C'|)
+            ctx.check(near(got, base, 1e-8 * sc), 'config/normalised-from-raw/differs/%s' % span, 'normalised twin at %r gives %r, un-normalised twin at %r '
+                      'gives %r' % (tuple(mapped), got, tuple(prm), base), what='unnormalized')
 
 
 # -- (b) number of worker processes ---------------------------------------------------------------------------------------------------
